@@ -10,18 +10,29 @@
 //   <ign>    0/1: rebuild<ign>() (1 = the public flags are ignored)
 //   <S> <T>  source / target attribute set as a bit mask over the attributes {0 owner,1 overlap,2 copy,3 ghost};
 //            the harness realises every mask with the enumset.hh classes (EmptySet, EnumItem, EnumRange, Combine,
-//            NegateSet, AllSet; table `setTable`)
+//            NegateSet, AllSet; table `setTable`).  A mask followed by `a` (e.g. `5a`) asks for the alternative
+//            realisation of the same set by nested Combine / NegateSet<Combine<..>> / combine(combine(..),..)
+//            (table `Alt`; needs Combine::Type, fixes/C05_combine_type)
 //   <pay>    s1: std::vector<long> (SizeOne, one long per index)        s3: std::vector<FieldVector<long,3>> (SizeOne)
 //            v<k>: VariableSize CommPolicy, index with global index g carries 1+((g+k) mod 3) longs
 //            w<k>: the same with (g+k) mod 3 longs (indices without any component occur)
 //   <pol>    copy | add        (what the recording gather/scatter policy does with a scattered value)
+//            cgs               (the stock Dune::CopyGatherScatter<Data>; SizeOne payloads, BufferedCommunicator only;
+//                               no call log, final containers are compared)
 //   <comm>   buf (BufferedCommunicator) | dt (DatatypeCommunicator, copy only)
 //   <cont>   c1: ranks with one index set communicate inside one container (forward(data)), c2: always two containers
-//   <rounds> string over {f,b}: forward()/backward() calls on the one communicator, in this order
+//   <rounds> life of the one communicator object after its first build, items separated by `.`:
+//              a string over {f,b}   forward()/backward() calls, in this order
+//              r<S>-<T>              free() of the communicator, Interface::free(), Interface::build with the new
+//                                    attribute sets on the same Interface object, build() of the communicator
+//              n<S>-<T>              a new Interface object built with the new sets, then build() of the same
+//                                    communicator object again WITHOUT free() (fixes/C05_build_twice)
+//            e.g. `fb.r5-10a.ff.n3-3.b`; at most 8 communications and 3 rebuilds
 //   e = <s>,<r>,<g>,<l>,<attr>,<pub>    entry of set s (0 source, 1 target) on rank r: global g, local l
 //                                         (entries with s=1 for a one-set rank are ignored)
 //
-// Answer of a rank:  I <q>:[send locals]|[recv locals] ... ;S [selection];D [src]|[tgt];D ...   (one D per round; a rank
+// Answer of a rank:  I <q>:[send locals]|[recv locals] ... ;S [selection];D [src]|[tgt];D ...;I ...;D ...  (one I per
+// build, one D per round; a rank
 // with one container prints D [data]; entries whose value the property leaves open — copy policy with several senders,
 // or anything computed from such an entry — are printed as *).  A dt case that would need overlapping receive
 // buffers prints `skip` instead of the D parts.
@@ -30,6 +41,7 @@
 #include <algorithm>
 #include <array>
 #include <map>
+#include <memory>
 #include <set>
 
 #include <dune/common/enumset.hh>
@@ -81,6 +93,45 @@ static const AnySet setTable[16] = {
     {&M0::contains}, {&M1::contains}, {&M2::contains},   {&M3::contains},   {&M4::contains},   {&M5::contains},
     {&M6::contains}, {&M7::contains}, {&M8::contains},   {&M9::contains},   {&M10::contains},  {&M11::contains},
     {&M12::contains}, {&M13::contains}, {&M14::contains}, {&M15::contains}};
+
+// the same sixteen sets written with nested Combine, NegateSet<Combine<..>> and the combine() function: all of these need
+// the member typedef Combine::Type.  Everything depends on the template parameter F so that a tree without that typedef
+// still compiles; the cases that ask for these sets are then reported as failures (exec).
+template <class C, class = void> struct HasTypeMember : std::false_type {};
+template <class C> struct HasTypeMember<C, std::void_t<typename C::Type>> : std::true_type {};
+template <class F, bool ok> struct Alt {
+  static const AnySet* table() { return nullptr; }
+};
+template <class F> struct Alt<F, true> {
+  template <int i> using I = Dune::EnumItem<F, i>;
+  template <int a, int b> using R = Dune::EnumRange<F, a, b>;
+  template <class A, class B> using C = Dune::Combine<A, B>;  // third parameter defaulted: A::Type
+  template <class A> using N = Dune::NegateSet<A>;
+  typedef N<Dune::AllSet<F>> A0;
+  typedef N<C<R<1, 2>, I<3>>> A1;
+  typedef N<C<C<I<0>, I<2>>, I<3>>> A2;
+  typedef N<C<I<2>, I<3>>> A3;
+  typedef N<C<R<0, 1>, I<3>>> A4;
+  typedef decltype(Dune::combine(I<0>(), I<2>())) A5;
+  typedef N<C<I<0>, I<3>>> A6;
+  typedef decltype(Dune::combine(Dune::combine(I<0>(), I<1>()), I<2>())) A7;
+  typedef N<C<C<I<0>, I<1>>, I<2>>> A8;
+  typedef N<C<I<1>, I<2>>> A9;
+  typedef C<C<I<1>, Dune::EmptySet<F>>, I<3>> A10;
+  typedef C<C<I<0>, I<1>>, I<3>> A11;
+  typedef N<C<I<0>, I<1>>> A12;
+  typedef C<C<I<2>, I<3>>, I<0>> A13;
+  typedef N<C<I<0>, Dune::EmptySet<F>>> A14;
+  typedef C<C<R<0, 1>, I<2>>, I<3>> A15;
+  static const AnySet* table() {
+    static const AnySet t[16] = {{&A0::contains},  {&A1::contains},  {&A2::contains},  {&A3::contains},
+                                 {&A4::contains},  {&A5::contains},  {&A6::contains},  {&A7::contains},
+                                 {&A8::contains},  {&A9::contains},  {&A10::contains}, {&A11::contains},
+                                 {&A12::contains}, {&A13::contains}, {&A14::contains}, {&A15::contains}};
+    return t;
+  }
+};
+static const AnySet* altTable() { return Alt<Flags, HasTypeMember<Cb<It<0>, It<1>>>::value>::table(); }
 
 template <class Set> static std::vector<long> selectionOf(const PIS& is, bool& agree) {
   Dune::Selection<Set, int, LocalIndex, 7> sel(is);
@@ -174,15 +225,21 @@ struct Ent {
   int a;
   bool pub;
 };
+struct Phase {  // one build of the communicator and the communications that follow it
+  int S = 0, T = 0;
+  bool Salt = false, Talt = false;
+  bool freeFirst = true;  // r: free() + Interface::free() before building again; n: build again without free()
+  std::string rounds;     // over {f,b}
+};
 struct Case {
   int P = 0;
   std::vector<bool> two;
   bool ign = false;
-  int S = 0, T = 0;
+  int S = 0, T = 0;  // the attribute sets of the current build
   int pay = 0;   // 0 s1, 1 s3, 2 v / w
   int vk = 0, vbase = 1;
-  bool add = false, dt = false, c1 = false;
-  std::string rounds;
+  bool add = false, dt = false, c1 = false, cgs = false;
+  std::vector<Phase> phases;
   std::vector<std::array<std::vector<Ent>, 2>> set;  // [rank][0 src / 1 tgt], sorted by global
   const std::vector<Ent>& tgt(int r) const { return two[r] ? set[r][1] : set[r][0]; }
   bool oneC(int r) const { return c1 && !two[r]; }
@@ -244,22 +301,52 @@ static bool parseCase(const std::string& line, Case& c, std::string& why) {
   }
   if (!num(hw[3], 0, 1, t)) { why = "ign"; return false; }
   c.ign = t;
-  if (!num(hw[4], 0, 15, t)) { why = "S"; return false; }
-  c.S = (int)t;
-  if (!num(hw[5], 0, 15, t)) { why = "T"; return false; }
-  c.T = (int)t;
+  auto mask = [&](std::string m, int& out, bool& alt) {
+    alt = !m.empty() && m.back() == 'a';
+    if (alt) m.pop_back();
+    long v;
+    if (!num(m, 0, 15, v)) return false;
+    out = (int)v;
+    return true;
+  };
+  Phase ph0;
+  if (!mask(hw[4], ph0.S, ph0.Salt)) { why = "S"; return false; }
+  if (!mask(hw[5], ph0.T, ph0.Talt)) { why = "T"; return false; }
+  c.S = ph0.S;
+  c.T = ph0.T;
   if (hw[6] == "s1") c.pay = 0;
   else if (hw[6] == "s3") c.pay = 1;
   else if (hw[6] == "v0" || hw[6] == "v1" || hw[6] == "v2") { c.pay = 2; c.vk = hw[6][1] - '0'; c.vbase = 1; }
   else if (hw[6] == "w0" || hw[6] == "w1" || hw[6] == "w2") { c.pay = 2; c.vk = hw[6][1] - '0'; c.vbase = 0; }
   else { why = "pay"; return false; }
-  if (hw[7] == "copy") c.add = false; else if (hw[7] == "add") c.add = true; else { why = "pol"; return false; }
+  if (hw[7] == "copy") c.add = false;
+  else if (hw[7] == "add") c.add = true;
+  else if (hw[7] == "cgs") c.cgs = true;
+  else { why = "pol"; return false; }
   if (hw[8] == "buf") c.dt = false; else if (hw[8] == "dt") c.dt = true; else { why = "comm"; return false; }
   if (c.dt && c.add) { why = "dt-add"; return false; }
+  if (c.cgs && (c.dt || c.pay == 2)) { why = "cgs"; return false; }
   if (hw[9] == "c1") c.c1 = true; else if (hw[9] == "c2") c.c1 = false; else { why = "cont"; return false; }
-  c.rounds = hw[10];
-  if (c.rounds.empty() || c.rounds.size() > 6) { why = "rounds"; return false; }
-  for (char ch : c.rounds) if (ch != 'f' && ch != 'b') { why = "rounds"; return false; }
+  {
+    c.phases.assign(1, ph0);
+    size_t nComm = 0;
+    if (hw[10].empty() || hw[10].size() > 60) { why = "rounds"; return false; }
+    for (auto& item : split(hw[10], '.')) {
+      if (item.empty()) { why = "rounds"; return false; }
+      if (item[0] == 'r' || item[0] == 'n') {
+        auto st = split(item.substr(1), '-');
+        Phase ph;
+        ph.freeFirst = item[0] == 'r';
+        if (st.size() != 2 || !mask(st[0], ph.S, ph.Salt) || !mask(st[1], ph.T, ph.Talt)) { why = "rounds"; return false; }
+        c.phases.push_back(ph);
+      } else {
+        for (char ch : item) if (ch != 'f' && ch != 'b') { why = "rounds"; return false; }
+        c.phases.back().rounds += item;
+        nComm += item.size();
+      }
+    }
+    if (nComm == 0 || nComm > 8 || c.phases.size() > 4) { why = "rounds"; return false; }
+  }
   c.set.assign(c.P, {});
   for (auto& segRaw : split(body, ';')) {
     std::string seg;
@@ -283,8 +370,8 @@ static bool parseCase(const std::string& line, Case& c, std::string& why) {
 }
 
 // are the receive buffers of the derived-datatype variant free of overlap (otherwise the MPI calls are erroneous)?
-static bool dtFeasible(const Case& c) {
-  bool f = c.rounds.find('f') != std::string::npos, b = c.rounds.find('b') != std::string::npos;
+static bool dtFeasiblePhase(const Case& c, const std::string& rounds) {
+  bool f = rounds.find('f') != std::string::npos, b = rounds.find('b') != std::string::npos;
   for (int r = 0; r < c.P; ++r) {
     std::multiset<long> snd, rcv;
     for (int q = 0; q < c.P; ++q) {
@@ -294,13 +381,23 @@ static bool dtFeasible(const Case& c) {
     auto dupl = [](const std::multiset<long>& m) { for (long x : m) if (m.count(x) > 1) return true; return false; };
     if (f && dupl(rcv)) return false;
     if (b && dupl(snd)) return false;
-    if (c.oneC(r)) for (long x : snd) if (rcv.count(x)) return false;
+    if (c.oneC(r) && (f || b)) for (long x : snd) if (rcv.count(x)) return false;
+  }
+  return true;
+}
+static bool dtFeasible(const Case& c0) {
+  Case c = c0;
+  for (auto& ph : c0.phases) {
+    c.S = ph.S;
+    c.T = ph.T;
+    if (!dtFeasiblePhase(c, ph.rounds)) return false;
   }
   return true;
 }
 
-template <class Data> static Result runCase(const Case& c) {
+template <class Data> static Result runCase(const Case& c0) {
   typedef typename Pol<Data>::type GS;
+  Case c = c0;  // c.S / c.T follow the builds
   int rank;
   MPI_Comm_rank(MPI_COMM_WORLD, &rank);
   const int P = c.P;
@@ -320,57 +417,70 @@ template <class Data> static Result runCase(const Case& c) {
   PIS& tgtSet = c.two[rank] ? sets[1] : sets[0];
   RI ri(srcSet, tgtSet, MPI_COMM_WORLD);
   if (c.ign) ri.template rebuild<true>(); else ri.template rebuild<false>();
-  const AnySet S = setTable[c.S], T = setTable[c.T];
-  Dune::Interface iface;
-  iface.build(ri, S, T);
-
-  // ---- observation 1: the interface
+  std::vector<std::unique_ptr<Dune::Interface>> ifaces;  // all Interface objects stay alive until the case ends
+  Dune::Interface* iface = nullptr;
   std::vector<std::string> obs;
-  std::map<int, std::pair<std::vector<long>, std::vector<long>>> got;
-  {
+
+  // (re)build the interface for the attribute sets of phase `ph` and compare it with its definition (oracle 1);
+  // returns false (on all ranks together) if some rank's interface is wrong: a wrong interface makes the
+  // communication itself meaningless (message sizes no longer match: MPI would abort or hang)
+  long ifEntries = 0;
+  auto buildInterface = [&](const Phase& ph, bool first) -> bool {
+    c.S = ph.S;
+    c.T = ph.T;
+    const AnySet S = ph.Salt ? altTable()[ph.S] : setTable[ph.S], T = ph.Talt ? altTable()[ph.T] : setTable[ph.T];
+    if (first || !ph.freeFirst) {
+      ifaces.emplace_back(new Dune::Interface());
+      iface = ifaces.back().get();
+    } else {
+      iface->free();
+    }
+    iface->build(ri, S, T);
+    std::map<int, std::pair<std::vector<long>, std::vector<long>>> got;
     std::string o = "I";
-    for (auto& kv : static_cast<const Dune::Interface&>(iface).interfaces()) {
-      std::vector<long> s, r;
-      for (size_t i = 0; i < kv.second.first.size(); ++i) s.push_back((long)kv.second.first[i]);
-      for (size_t i = 0; i < kv.second.second.size(); ++i) r.push_back((long)kv.second.second[i]);
+    for (auto& kv : static_cast<const Dune::Interface&>(*iface).interfaces()) {
+      std::vector<long> sl, rl;
+      for (size_t i = 0; i < kv.second.first.size(); ++i) sl.push_back((long)kv.second.first[i]);
+      for (size_t i = 0; i < kv.second.second.size(); ++i) rl.push_back((long)kv.second.second[i]);
       // a neighbour with two empty lists says the same as no entry: not printed, not an error
-      if (s.empty() && r.empty()) { dv::stat("interface_empty_entries"); continue; }
-      o += " " + std::to_string(kv.first) + ":" + showL(s) + "|" + showL(r);
-      got[kv.first] = std::make_pair(s, r);
+      if (sl.empty() && rl.empty()) { dv::stat("interface_empty_entries"); continue; }
+      o += " " + std::to_string(kv.first) + ":" + showL(sl) + "|" + showL(rl);
+      got[kv.first] = std::make_pair(sl, rl);
     }
     obs.push_back(o);
-  }
-  // oracle 1: the definition of the interface
-  long ifEntries = 0;
-  for (int q = 0; q < P; ++q) {
-    std::vector<long> es, er;
-    for (auto& s : sharedDef(c, rank, q)) es.push_back(s.lp);
-    for (auto& s : sharedDef(c, q, rank)) er.push_back(s.lq);
-    ifEntries += (long)(es.size() + er.size());
-    auto it = got.find(q);
-    std::string who = "interface of rank " + std::to_string(rank) + " for " + std::to_string(q) + ": ";
-    if (es.empty() && er.empty()) {
-      failIf(it != got.end(), who + "entry although nothing is shared");
-      continue;
+    int nb = 0;
+    for (int q = 0; q < P; ++q) {
+      std::vector<long> es, er;
+      for (auto& sd : sharedDef(c, rank, q)) es.push_back(sd.lp);
+      for (auto& sd : sharedDef(c, q, rank)) er.push_back(sd.lq);
+      ifEntries += (long)(es.size() + er.size());
+      auto it = got.find(q);
+      std::string who = "interface of rank " + std::to_string(rank) + " for " + std::to_string(q) + ": ";
+      if (es.empty() && er.empty()) {
+        failIf(it != got.end(), who + "entry although nothing is shared");
+        continue;
+      }
+      nontrivial = true;
+      ++nb;
+      if (q == rank && rank == 0) dv::stat("self_neighbour_rank0");
+      if (it == got.end()) { failIf(true, who + "missing, expected send " + showL(es) + " receive " + showL(er)); continue; }
+      failIf(it->second.first != es, who + "send list " + showL(it->second.first) + " expected " + showL(es));
+      failIf(it->second.second != er, who + "receive list " + showL(it->second.second) + " expected " + showL(er));
     }
-    nontrivial = true;
-    if (it == got.end()) { failIf(true, who + "missing, expected send " + showL(es) + " receive " + showL(er)); continue; }
-    failIf(it->second.first != es, who + "send list " + showL(it->second.first) + " expected " + showL(es));
-    failIf(it->second.second != er, who + "receive list " + showL(it->second.second) + " expected " + showL(er));
-  }
-  for (auto& kv : got) failIf(kv.first < 0 || kv.first >= P, "interface entry for a rank outside the communicator");
-
-  // a wrong interface makes the communication itself meaningless (message sizes no longer match: MPI would abort or
-  // hang); report the interface and stop here, on all ranks together
-  {
+    if (rank == 0) dv::stat("neighbours_rank0_" + std::to_string(std::min(nb, 4)) + (nb >= 4 ? "plus" : ""));
+    for (auto& kv : got) failIf(kv.first < 0 || kv.first >= P, "interface entry for a rank outside the communicator");
     int bad = fail.empty() ? 0 : 1, anyBad = 0;
     MPI_Allreduce(&bad, &anyBad, 1, MPI_INT, MPI_MAX, MPI_COMM_WORLD);
-    if (anyBad) {
-      res.impl = join(obs.begin(), obs.end(), ";") + ";interface-wrong";
-      res.oracle = fail.empty() ? "ok" : "FAIL " + fail;
-      return res;
-    }
-  }
+    return !anyBad;
+  };
+  auto stopInterfaceWrong = [&]() {
+    res.impl = join(obs.begin(), obs.end(), ";") + ";interface-wrong";
+    res.oracle = fail.empty() ? "ok" : "FAIL " + fail;
+    return res;
+  };
+
+  // ---- observation 1: the interface of the first build
+  if (!buildInterface(c.phases[0], true)) return stopInterfaceWrong();
 
   // ---- observation 2: Selection / UncachedSelection of the source set with the source attribute set
   {
@@ -411,7 +521,7 @@ template <class Data> static Result runCase(const Case& c) {
   Data& srcData = data[0];
   Data& tgtData = one ? data[0] : data[1];
 
-  if (c.dt && !dtFeasible(c)) {
+  if (c.dt && !dtFeasible(c0)) {
     obs.push_back("skip");
     res.impl = join(obs.begin(), obs.end(), ";");
     res.oracle = fail.empty() ? (nontrivial ? "ok" : "ok trivial") : "FAIL " + fail;
@@ -421,17 +531,37 @@ template <class Data> static Result runCase(const Case& c) {
 
   Dune::BufferedCommunicator bc;
   Dune::DatatypeCommunicator<PIS> dc;
-  if (c.dt) dc.build(ri, S, srcData, T, tgtData);
-  else if constexpr (std::is_same<Data, VV>::value) bc.build(srcData, tgtData, iface);
-  else { if (!c.c1) bc.build(srcData, tgtData, iface); else bc.template build<Data>(iface); }
   gAdd = c.add;
+  auto buildComm = [&](const Phase& ph) {
+    const AnySet S = ph.Salt ? altTable()[ph.S] : setTable[ph.S], T = ph.Talt ? altTable()[ph.T] : setTable[ph.T];
+    if (c.dt) dc.build(ri, S, srcData, T, tgtData);
+    else if constexpr (std::is_same<Data, VV>::value) bc.build(srcData, tgtData, *iface);
+    else { if (!c.c1) bc.build(srcData, tgtData, *iface); else bc.template build<Data>(*iface); }
+  };
 
   long nCalls = 0, nOpen = 0;
-  for (char dir : c.rounds) {
+  for (size_t k = 0; k < c.phases.size(); ++k) {
+  const Phase& ph = c.phases[k];
+  if (k > 0) {
+    // life cycle: the same communicator object is built again for other attribute sets
+    if (ph.freeFirst) { if (c.dt) dc.free(); else bc.free(); }
+    if (!buildInterface(ph, false)) return stopInterfaceWrong();
+  }
+  buildComm(ph);
+  for (char dir : ph.rounds) {
     const bool fwd = dir == 'f';
     gLog.clear();
     sLog.clear();
     if (c.dt) { if (fwd) dc.forward(); else dc.backward(); }
+    else if constexpr (!std::is_same<Data, VV>::value) {
+      typedef Dune::CopyGatherScatter<Data> CGS;
+      if (c.cgs) {
+        if (one) { if (fwd) bc.template forward<CGS>(srcData); else bc.template backward<CGS>(srcData); }
+        else { if (fwd) bc.template forward<CGS>(srcData, tgtData); else bc.template backward<CGS>(srcData, tgtData); }
+      }
+      else if (one) { if (fwd) bc.template forward<GS>(srcData); else bc.template backward<GS>(srcData); }
+      else { if (fwd) bc.template forward<GS>(srcData, tgtData); else bc.template backward<GS>(srcData, tgtData); }
+    }
     else if (one) { if (fwd) bc.template forward<GS>(srcData); else bc.template backward<GS>(srcData); }
     else { if (fwd) bc.template forward<GS>(srcData, tgtData); else bc.template backward<GS>(srcData, tgtData); }
 
@@ -484,7 +614,7 @@ template <class Data> static Result runCase(const Case& c) {
     }
     // compare this rank
     std::string rd = std::string("round ") + dir + " on rank " + std::to_string(rank) + ": ";
-    if (!c.dt) {
+    if (!c.dt && !c.cgs) {
       auto canonCalls = [&](std::vector<Call> v) {
         if (openInvolved) for (auto& x : v) x.v = 0;
         std::sort(v.begin(), v.end());
@@ -532,6 +662,7 @@ template <class Data> static Result runCase(const Case& c) {
     }
     obs.push_back(o);
   }
+  }
   res.impl = join(obs.begin(), obs.end(), ";");
   res.oracle = fail.empty() ? (nontrivial ? "ok" : "ok trivial") : "FAIL " + fail;
   if (rank == 0) {
@@ -554,15 +685,39 @@ static Result exec(const std::string& line) {
     res.oracle = "ok trivial " + (why.empty() ? std::string("np") : why);
     return res;
   }
+  {
+    bool alt = false;
+    for (auto& ph : c.phases) alt = alt || ph.Salt || ph.Talt;
+    if (alt && altTable() == nullptr) {
+      res.impl = "no-combine-type";
+      res.oracle = "FAIL Dune::Combine has no member typedef Type: Combine<Combine<A,B>,C>, NegateSet<Combine<A,B>> and "
+                   "combine(combine(a,b),c) cannot be instantiated, the attribute set of this case cannot be written";
+      return res;
+    }
+  }
   if (rank == 0) {
     bool any2 = false, all2 = true;
     for (int r = 0; r < c.P; ++r) { any2 = any2 || c.two[r]; all2 = all2 && c.two[r]; }
     stat(all2 ? "sets_two" : (any2 ? "sets_mixed" : "sets_one"));
     stat(c.pay == 0 ? "pay_s1" : (c.pay == 1 ? "pay_s3" : (c.vbase ? "pay_var" : "pay_var_with_empty")));
-    stat(c.add ? "pol_add" : "pol_copy");
+    stat(c.cgs ? "pol_stock_CopyGatherScatter" : (c.add ? "pol_add" : "pol_copy"));
     stat(c.dt ? "comm_datatype" : "comm_buffered");
     stat(c.c1 ? "cont_one" : "cont_two");
-    stat(std::string("rounds_") + c.rounds);
+    {
+      size_t nComm = 0, nFree = 0, nNoFree = 0;
+      bool alt = false;
+      for (size_t k = 0; k < c.phases.size(); ++k) {
+        nComm += c.phases[k].rounds.size();
+        if (k > 0) (c.phases[k].freeFirst ? nFree : nNoFree) += 1;
+        alt = alt || c.phases[k].Salt || c.phases[k].Talt;
+      }
+      if (c.phases.size() == 1) stat(std::string("rounds_") + c.phases[0].rounds);
+      stat("communications_" + std::to_string(nComm));
+      stat("rebuilds_after_free", (long)nFree);
+      stat("rebuilds_without_free", (long)nNoFree);
+      if (c.phases.size() > 1) stat("cases_with_rebuild");
+      if (alt) stat("sets_nested_combine_or_negated");
+    }
     stat(c.S == c.T ? "sets_S_eq_T" : "sets_S_ne_T");
     stat(c.ign ? "ignorePublic" : "publicOnly");
   }
@@ -591,9 +746,11 @@ static std::string gen(Rng& rng, long, const Args& args) {
   std::string pay = pk < 4 ? "s1" : (pk < 6 ? "s3" : (pk < 9 ? "v" : "w") + std::to_string(rng.below(3)));
   bool dt = rng.coin(1, 5);
   bool add = !dt && rng.coin(2, 5);
+  bool cgs = !dt && !add && pay[0] == 's' && rng.coin(1, 4);
   std::string cont = rng.coin() ? "c1" : "c2";
   static const char* rds[] = {"f", "b", "ff", "fb", "bf", "bb", "fbf", "ffb", "bfb"};
   std::string rounds = rds[rng.below(rng.coin(1, 4) ? 2 : 9)];
+  int nRebuild = rng.coin(3, 10) ? 1 + (int)rng.below(rng.coin(1, 3) ? 3 : 1) : 0;
 
   int nG = (int)rng.range(0, thorough ? 12 : 8);
   if (rng.coin(1, 30)) nG = 0;
@@ -653,9 +810,31 @@ static std::string gen(Rng& rng, long, const Args& args) {
   if (rng.coin()) for (size_t i = segs.size(); i > 1; --i) std::swap(segs[i - 1], segs[rng.below(i)]);
   std::string flags;
   for (int r = 0; r < P; ++r) flags.push_back((char)('0' + two[r]));
-  return "c05 " + std::to_string(P) + " " + flags + " " + std::to_string(ign) + " " + std::to_string(S) + " " +
-         std::to_string(T) + " " + pay + " " + (add ? "add" : "copy") + " " + (dt ? "dt" : "buf") + " " + cont + " " + rounds +
-         " : " + join(segs.begin(), segs.end(), ";");
+  auto maskStr = [&](int m) { return std::to_string(m) + (rng.coin(1, 5) ? "a" : ""); };
+  // life cycle: the communicator is built again for attribute sets that mostly keep the neighbours but change the
+  // message sizes (one attribute more or less), sometimes for unrelated sets
+  {
+    int cs = S, ct = T;
+    size_t nComm = rounds.size();
+    for (int k = 0; k < nRebuild; ++k) {
+      int kind2 = (int)rng.below(6);
+      int ns = cs, nt = ct;
+      if (kind2 == 0) { ns = (int)rng.below(16); nt = (int)rng.below(16); }
+      else if (kind2 == 1) { ns = ct; nt = cs; }
+      else if (kind2 == 2) { ns = cs; nt = ct; }  // identical layout
+      else { if (rng.coin()) nt = ct ^ (1 << rng.below(4)); else ns = cs ^ (1 << rng.below(4)); if (rng.coin(1, 3)) nt |= ct; }
+      std::string more = rds[rng.below(rng.coin(1, 3) ? 2 : 9)];
+      if (rng.coin(1, 12)) more = "";
+      if (nComm + more.size() > 8) more = more.substr(0, 8 - nComm);
+      nComm += more.size();
+      rounds += std::string(".") + (rng.coin(2, 3) ? "r" : "n") + maskStr(ns) + "-" + maskStr(nt) + (more.empty() ? "" : "." + more);
+      cs = ns;
+      ct = nt;
+    }
+  }
+  return "c05 " + std::to_string(P) + " " + flags + " " + std::to_string(ign) + " " + maskStr(S) + " " + maskStr(T) + " " + pay +
+         " " + (cgs ? "cgs" : (add ? "add" : "copy")) + " " + (dt ? "dt" : "buf") + " " + cont + " " + rounds + " : " +
+         join(segs.begin(), segs.end(), ";");
 }
 
 int main(int argc, char** argv) {
